@@ -371,7 +371,7 @@ func init() {
 			return s
 		},
 		Run:  c06Run,
-		Rule: "expression trees over the pool {0,1,2,7,-3 (variable),1.5,2.0,\"a\",\"b\",\"\",true,false,nil} and all 13 binary operators + '!': every depth-1 tree; every (a∘b)∘c and a∘(b∘c) for all operator pairs and all operand triples; every (a∘b)∘(c∘d) for all operator triples over a reduced pool; the depth-3 chains a∘((b∘c)∘d), ((a∘b)∘c)∘d, a∘(b∘(c∘d)) for all operator triples over a pool of 3 (5 thorough); '!' applied to leaves and subtrees. Each tree is printed with minimal parentheses under the stated precedence table, with full parentheses, with redundant parentheses around every leaf, and with recording operands (short-circuit observation), rendered on the real code and compared with a reference evaluator in Go. Printed form: \"v=\" + x equals \"v=\" followed by what <%= x %> prints, for 16 numeric / boolean operands incl. floats that print in exponent form. Number spellings: every pair of literals from {5, 05, 0.5, .5, 2.0, 10.25, .25} with + * / < == > written with spaces, tight (a∘b), parenthesised tight ((a)∘(b)) and as array elements, against Go arithmetic on the same values. Unspecified coercions (bool op non-bool, string compared with non-string, bool+bool) are only checked for totality. Non-trivial: tree has at least two operators.",
+		Rule: "expression trees over the pool {0,1,2,7,-3 (variable),1.5,2.0,\"a\",\"b\",\"\",true,false,nil} and all 13 binary operators + '!': every depth-1 tree; every (a∘b)∘c and a∘(b∘c) for all operator pairs and all operand triples; every (a∘b)∘(c∘d) for all operator triples over a reduced pool; the depth-3 chains a∘((b∘c)∘d), ((a∘b)∘c)∘d, a∘(b∘(c∘d)) for all operator triples over a pool of 3 (5 thorough); '!' applied to leaves and subtrees. Each tree is printed with minimal parentheses under the stated precedence table, with full parentheses, with redundant parentheses around every leaf, and with recording operands (short-circuit observation), rendered on the real code and compared with a reference evaluator in Go. Same-spelling literals: 14 programs mixing an int / float / bool literal with a string literal of the same characters in both orders (each keeps its kind). Regex match: 29 (subject, pattern) pairs incl. alternation, anchors, classes, quantifiers, escapes, as literal / variable / concatenation, against Go's regexp. Printed form: \"v=\" + x equals \"v=\" followed by what <%= x %> prints, for 16 numeric / boolean operands incl. floats that print in exponent form. Number spellings: every pair of literals from {5, 05, 0.5, .5, 2.0, 10.25, .25} with + * / < == > written with spaces, tight (a∘b), parenthesised tight ((a)∘(b)) and as array elements, against Go arithmetic on the same values. Unspecified coercions (bool op non-bool, string compared with non-string, bool+bool) are only checked for totality. Non-trivial: tree has at least two operators.",
 		Bound: func(th bool) string {
 			if th {
 				return "depth-2 trees (4-leaf shape over a pool of 7 operands, 3-leaf shapes over all 13) and depth-3 chains over a pool of 5"
@@ -468,6 +468,57 @@ func c06Run(t *engine.T, shard string) {
 
 // c06Spellings: the value of a numeric literal does not depend on what is written right after it.
 func c06Spellings(t *engine.T) {
+	// literals that are spelled with the same characters but are of different kinds keep their kinds, in either order
+	for _, c := range []struct{ src, want string }{
+		{`<%= 1 + "1" %>`, "ERR"}, {`<%= "1" + 1 %>`, "11"}, {`<%= 1 == "1" %>`, "ERR"}, {`<%= 2 * 3 - "2" %>`, "ERR"}, {`<%= "1" + 1 * 2 %>`, "12"},
+		{`<%= "2" + 2 %>|<%= 2 + 2 %>|<%= "2" + "2" %>`, "22|4|22"}, {`<%= 2 + 2 %>|<%= "2" + 2 %>`, "4|22"}, {`<%= 1.5 + 1.5 %>|<%= "1.5" + 1.5 %>`, "3|1.51.5"},
+		{`<%= "1.5" + 1.5 %>|<%= 1.5 + 1.5 %>`, "1.51.5|3"}, {`<%= "true" + true %>|<%= true && true %>`, "truetrue|true"}, {`<%= true && true %>|<%= "true" + "!" %>`, "true|true!"},
+		{`<%= "nil" + "x" %>|<%= nil == nil %>`, "nilx|true"}, {"<%= `7` + 7 %>|<%= 7 + 7 %>|<%= \"7\" + 7 %>", "77|14|77"}, {`<% let a = 3 %><% let b = "3" %><%= a + a %>|<%= b + b %>|<%= b + a %>`, "6|33|33"},
+	} {
+		c := c
+		t.Case("same-spelling literals "+q(c.src), true, func() (string, *engine.Fail) {
+			out, err := Render(c.src, plush.NewContext())
+			if c.want == "ERR" {
+				if err == nil {
+					return "", engine.Failf("mismatch", "reference: error (operand-type mismatch); got output %q", out)
+				}
+				return "error", nil
+			}
+			if err != nil || out != c.want {
+				return "", engine.Failf("mismatch", "expected %q, got %q / %v", c.want, out, err)
+			}
+			return "value", nil
+		})
+	}
+	// ~= is a regular-expression match of the right operand's text against the left string
+	for _, c := range []struct{ s, re string }{
+		{"abc", "x|b"}, {"abc", "x|y"}, {"abc", "a|b|c"}, {"a|b", "a|b"}, {"abc", "b"}, {"abc", "^b"}, {"abc", "^a"}, {"abc", "c$"}, {"abc", "a.c"}, {"a.c", "a.c"}, {"abc", "a\\.c"},
+		{"abc", "ab+c"}, {"abbc", "ab+c"}, {"ab+c", "ab+c"}, {"abc", "[b]"}, {"abc", "a(b)c"}, {"abc", "(?i)B"}, {"abc", "ab{1}c"}, {"abc", "ab?c"}, {"ac", "ab?c"}, {"abc", "a*"}, {"", ""}, {"abc", ""},
+		{"abc", "B"}, {"a b", "a b"}, {"a\tb", "\\t"}, {"abc", "\\w+"}, {"123", "^\\d+$"}, {"12a", "^\\d+$"},
+	} {
+		c := c
+		src := `<%= "` + c.s + `" ~= "` + c.re + `" %>|<% let p = "` + c.re + `" %><%= "` + c.s + `" ~= p %>|<%= "` + c.s + `" ~= "" + p %>`
+		t.Case("regex match "+q(src), true, func() (string, *engine.Fail) {
+			// what the template's literals denote: only \" is an escape, so \\ stays two characters
+			subj, pat := c.s, c.re
+			want := "error"
+			if re, err := regexp.Compile(pat); err == nil {
+				want = fmt.Sprint(re.MatchString(subj))
+				want = want + "|" + want + "|" + want
+			}
+			out, err := Render(src, plush.NewContext())
+			if want == "error" {
+				if err == nil {
+					return "", engine.Failf("mismatch", "pattern does not compile, got %q", out)
+				}
+				return "error", nil
+			}
+			if err != nil || out != want {
+				return "", engine.Failf("mismatch", "expected %q, got %q / %v", want, out, err)
+			}
+			return "value", nil
+		})
+	}
 	// string + x concatenates the printed form of x: the form an output tag prints for x
 	for _, f := range []string{"1000000.0", "0.00001", "123456789.5", "100000.0", "1.5", "2.0", "0.1", "1000000", "0", "true", "false", "1000.0 * 1000.0", "1.0 / 3.0", "0.00001 * 0.5", "2 * 3", "7 / 2"} {
 		src := `<%= "v=" + ` + f + ` %>|<%= "" + ` + f + ` + "" %>`
